@@ -277,6 +277,20 @@ def _rvalue(s):
             j = body.rfind(' (')
             return ('cast', parse_operand(s[:k]), body[:j].strip(), body[j + 2:-1])
         return ('use', parse_operand(s))
+    if s.endswith(')') and re.search(r' \((PointerCoercion\(.*\)|IntToInt|Transmute|PtrToPtr|Subtype|FnPtrToPtr|PointerExposeProvenance|PointerWithExposedProvenance)\)$', s):
+        k = find_top(s, ' as ', last=True)
+        if k != -1:
+            body = s[k + 4:]
+            j, depth = len(body) - 1, 0
+            while j >= 0:
+                if body[j] == ')':
+                    depth += 1
+                elif body[j] == '(':
+                    depth -= 1
+                    if depth == 0:
+                        break
+                j -= 1
+            return ('cast', parse_operand(s[:k]), body[:j].strip(), body[j + 1:-1])
     m = re.match(r'([A-Za-z]+)\(', s)
     if m and s.endswith(')'):
         op = m.group(1)
